@@ -145,6 +145,12 @@ def gen_cases(rng, tier):
     for i in range(1500 if tier == "quick" else 20000):
         ops = rand_path_ops(rng, 50, 50, rng.uniform(5, 60), curves=rng.random() < 0.8, grid=rng.choice([16.0, 1.0, 256.0]))
         cases.append(("tight_bounds", [rng.choice([0, 0, 0, 1, 2])] + ops))
+    # coordinates with full 24-bit mantissas (a grid of 2^-20 and decimal values such as 0.8 or 50.3): a bound recomputed as
+    # (max - min) + min does not give max back
+    for i in range(400 if tier == "quick" else 5000):
+        ops = rand_path_ops(rng, rng.choice([0.0, 50.0, 13.37]), rng.choice([0.0, 50.0, -7.1]), rng.uniform(5, 60), curves=rng.random() < 0.5,
+                            grid=rng.choice([1048576.0, 10.0, 3.0, 1000.0]))
+        cases.append(("tight_bounds", [0] + ops))
     return cases
 
 
